@@ -18,6 +18,8 @@ import (
 type Src struct {
 	d []uint32
 	i int
+	// SingleLabel is generation context: labelled NLRI must carry exactly one label.
+	SingleLabel bool
 }
 
 func NewSrc(recipe []uint32) *Src { return &Src{d: recipe} }
